@@ -11,7 +11,7 @@ import tlc
 from props import c01
 
 PROP = "C02"
-ATOMIC = {"set": True, "remove": False, "unwatch": False}   # the lock regions of the current code
+ATOMIC = {"set": True, "remove": False, "unwatch": True}   # the lock regions of the current code
 
 
 def op_variants(tag):
